@@ -41,11 +41,11 @@ def spy_classes():
     def render(self, size, focus=False):
         (maxcol,) = size
         stamp = "%s%s%s" % (chr(65 + self.wid), VCH[self.v % 36], "f" if focus else "n")
-        lines = [stamp.ljust(maxcol)[:maxcol].encode()] + [b"." * maxcol] * (self.v % 2)
+        lines = [stamp.ljust(maxcol)[:maxcol].encode()] + [b"." * maxcol] * ((self.v + int(bool(focus))) % 2)
         return urwid.TextCanvas(lines, maxcol=maxcol)
 
     def rows(self, size, focus=False):
-        return 1 + self.v % 2
+        return 1 + (self.v + int(bool(focus))) % 2
 
     def init(self, wid):
         urwid.Widget.__init__(self)
@@ -176,6 +176,8 @@ def run_bk(case):
     CanvasCache.clear()
     gc.collect()
     objs = build_bk(case)
+    PUBLIC_IDS.clear()
+    PUBLIC_IDS.update(id(x) for x in objs.values())
     nodes = node_map(case)
     wid_of = {id(o): i for i, o in objs.items()}
     slots, snaps, outs, frozen = {}, {}, [], []
@@ -226,7 +228,7 @@ def expect_bk(case):
         n = nodes[w]
         if n["k"] == "leaf":
             f = 1 if (focus and not n.get("ignf")) else 0
-            return 1 + ver[w] % 2, [[w, ver[w] % 36, f]]
+            return 1 + (ver[w] + f) % 2, [[w, ver[w] % 36, f]]
         ch, fp = config(n, ver[w])
         parts = []
         for i, x in enumerate(ch):
@@ -273,6 +275,8 @@ def build_real(spec):
     t = spec[0]
     if t == "text":
         return urwid.Text(TEXTS[spec[1] % len(TEXTS)], wrap=["space", "any", "clip", "ellipsis"][spec[2] % 4])
+    if t == "longtext":
+        return urwid.Text(" ".join("w%02d" % n for n in range(12 + 12 * (spec[1] % 3))))
     if t == "edit":
         return urwid.Edit("c:", TEXTS[spec[1] % len(TEXTS)].replace("\n", " "), multiline=bool(spec[2] % 2))
     if t == "intedit":
@@ -398,11 +402,24 @@ def setprop(w, name, value):
     return True
 
 
+def remarkup(text, b):
+    """Markup with exactly the characters of `text` and one of several attribute layouts (attribute-only change)."""
+    h = len(text) // 2
+    return [text, ("ok", text), ("alarm", text), [("a", text[:h]), text[h:]], [text[:h], ("b", text[h:])],
+            [("a", text[:h]), ("b", text[h:])]][b % 6]
+
+
 def mutate_real(w, a, b, size):
     """One public mutation of widget w chosen by the integers a, b.  Returns a short name (None = nothing done)."""
     import urwid
     if isinstance(w, urwid.Edit):
-        k = a % 6
+        k = a % 8
+        if k == 6:
+            w.set_caption(remarkup(w.caption, b))
+            return "Edit.set_caption(attributes only)"
+        if k == 7:
+            w.set_edit_text(w.edit_text)
+            return "Edit.set_edit_text(same)"
         if k == 0:
             w.set_edit_text(TEXTS[b % len(TEXTS)].replace("\n", " ") if not isinstance(w, urwid.IntEdit) else str(b % 1000))
             return "Edit.set_edit_text"
@@ -421,7 +438,10 @@ def mutate_real(w, a, b, size):
         w.set_mask([None, "*"][b % 2])
         return "Edit.set_mask"
     if isinstance(w, urwid.Text):
-        k = a % 4
+        k = a % 8
+        if k >= 4:
+            w.set_text(remarkup(w.text, b + k))
+            return "Text.set_text(attributes only)"
         if k == 0:
             w.set_text(TEXTS[b % len(TEXTS)])
             return "Text.set_text"
@@ -434,7 +454,10 @@ def mutate_real(w, a, b, size):
         w.set_wrap_mode(["space", "any", "clip", "ellipsis"][b % 4])
         return "Text.set_wrap_mode"
     if isinstance(w, urwid.CheckBox):
-        k = a % 4
+        k = a % 5
+        if k == 4:
+            w.set_label(remarkup(w.label, b))
+            return "CheckBox.set_label(attributes only)"
         if k == 0:
             w.set_state(bool(b % 2))
             return "CheckBox.set_state"
@@ -447,6 +470,9 @@ def mutate_real(w, a, b, size):
         w.keypress((size[0],), [" ", "enter", "x"][b % 3])
         return "CheckBox.keypress"
     if isinstance(w, urwid.Button):
+        if a % 2:
+            w.set_label(remarkup(w.label, b))
+            return "Button.set_label(attributes only)"
         w.set_label(TEXTS[b % len(TEXTS)].replace("\n", " "))
         return "Button.set_label"
     if isinstance(w, urwid.ProgressBar):
@@ -568,7 +594,17 @@ def mutate_real(w, a, b, size):
         return "Filler.original_widget" if setprop(w, "original_widget", new_leaf(b)) else None
     if isinstance(w, urwid.ListBox):
         n = len(w.body)
-        k = a % 13
+        k = a % 16
+        lsize = (size[0], BOXROWS[(b // 8) % 3])
+        if k == 13 and n:
+            w.shift_focus(lsize, b % 8 - 4)
+            return "ListBox.shift_focus"
+        if k == 14 and n:
+            w.change_focus(lsize, (b // 24) % n, b % 8 - 4, [None, "above", "below"][b % 3])
+            return "ListBox.change_focus"
+        if k == 15 and n:
+            w.make_cursor_visible(lsize)
+            return "ListBox.make_cursor_visible"
         if k == 7 and n:
             w.body.reverse()
             return "ListBox.body.reverse()"
@@ -699,7 +735,7 @@ def shim(names):
 
             def pile_render(self, size, focus=False):
                 canv = pile_fn(self, size, focus)
-                if any(h <= 0 for h in self.get_rows_sizes(size, focus)[1]):
+                if id(self) in PUBLIC_IDS and any(h <= 0 for h in self.get_rows_sizes(size, focus)[1]):
                     canv = CompositeCanvas(canv)
                     canv.cacheable = False
                 return canv
@@ -734,7 +770,7 @@ def shim(names):
             def cols_render(self, size, focus=False):
                 canv = cols_fn(self, size, focus)
                 widths = self.get_column_sizes(size, focus)[0]
-                if len(widths) < len(self.contents) or any(w <= 0 for w in widths):
+                if id(self) in PUBLIC_IDS and (len(widths) < len(self.contents) or any(w <= 0 for w in widths)):
                     canv = CompositeCanvas(canv)
                     canv.cacheable = False
                 return canv
@@ -749,6 +785,9 @@ def shim(names):
 # the recorded, unrepaired defects (cache-design changes).  Defects repaired in /repo (Edit/Text focus-blind cache entry,
 # ListBox.set_focus_valign, GraphVScale.set_scale, BarGraph.set_segment_attributes, GridFlow.pack) have no shim any more:
 # if one of them comes back it is reported as [root cause: unexplained], i.e. as a new violation.
+PUBLIC_IDS = set()     # ids of the widgets reachable through public attributes from the tree under test
+
+
 ROOT_CAUSES = [["store-checks-widget-not-canvas"], ["pile-hidden-child"], ["columns-hidden-child"], ["frame-hidden-child"], ["overlay-hidden-top"],
                ["scrollable-render-moves-scrollpos"]]
 
@@ -760,6 +799,8 @@ def run_real(case):
     CanvasCache.clear()
     gc.collect()
     top = build_real(case["tree"])
+    PUBLIC_IDS.clear()
+    PUBLIC_IDS.update(id(x) for x in walk(top))
     keep, snaps, outs, muts = [], [], [], []
     mode = case.get("mode", "swap")
     c11 = []
@@ -798,6 +839,12 @@ def run_real(case):
                     sizing = top.sizing()
                     if "flow" not in sizing:
                         size = (size[0], BOXROWS[op[4] % 3]) if "box" in sizing else ()
+                r0 = None
+                try:
+                    if len(size) == 1:
+                        r0 = top.rows(size, focus)
+                except Exception as e:      # noqa: BLE001
+                    r0 = "Exc:" + type(e).__name__
                 try:
                     c1 = top.render(size, focus)
                     d1 = content_of(c1)
@@ -832,7 +879,7 @@ def run_real(case):
                 del saved
                 if d2 is not None and d1 is not None:
                     o["same"] = d1 == d2
-                    o["rows"] = [r1, r2, r3]
+                    o["rows"] = [r1, r2, r3, r0]
                     if d1 != d2:
                         o["cached"], o["fresh"] = summarize(d1), summarize(d2)
                 del c1
@@ -848,6 +895,8 @@ def run_real(case):
                     o["what"] = None
                     o["mexc"] = type(e).__name__
                 del ws, w
+                PUBLIC_IDS.clear()
+                PUBLIC_IDS.update(id(x) for x in walk(top))
             elif op[0] == "gc":
                 keep = keep[op[1] % (len(keep) + 1):]
                 snaps = [s for s in snaps if any(s[0] is k for k in keep)]
@@ -1120,7 +1169,7 @@ class C06(core.Check):
             elif x < 0.44:
                 ops.append(["rsub", rng.choice([0, 0, 1, 2, 3]), rng.randrange(2), int(rng.random() < 0.5), rng.randrange(40)])
             elif x < 0.9:
-                ops.append(["mut", rng.randrange(40), rng.randrange(14), rng.randrange(60), rng.randrange(4)])
+                ops.append(["mut", rng.randrange(40), rng.randrange(18), rng.randrange(72), rng.randrange(4)])
             elif x < 0.97:
                 ops.append(["gc", rng.randrange(4)])
             else:
@@ -1200,7 +1249,28 @@ class C06(core.Check):
                         ops += [["rsub", 2, f, 0, i] for i in range(min(len(ws), 4))]
                         yield {"kind": "real", "mode": "swap", "tree": tree, "ops": ops}
 
+    @staticmethod
+    def listbox_scroll_cases(tier):
+        """Small scope, exhaustive: a ListBox whose focus widget is taller than the box, positioned with shift_focus /
+        change_focus at one width, rendered at two widths (the stored inset is a fraction that scales with the height of
+        the re-wrapped widget), positioned again at the other width, rendered again."""
+        for hidx in (0, 1, 2):
+            for wk in (0, 1):
+                lb = ["listbox", wk, [["longtext", 0], ["text", 1, 0], ["longtext", 1]]]
+                for tree, idx in ((["boxadapter", 2 * hidx, lb], 1),
+                                  (["boxadapter", 2 * hidx, ["boxattr", lb]], 2)):
+                    for sa, sb in ((1, 3), (2, 0), (0, 3), (1, 0), (3, 1), (2, 1)) if tier == "quick" else \
+                            [(x, y) for x in range(4) for y in range(4) if x != y]:
+                        for k in (1, 2, 3):
+                            for api in (13, 14):
+                                b = 8 * hidx + (4 - k)
+                                yield {"kind": "real", "mode": "swap", "tree": tree,
+                                       "ops": [["render", sa, 1, 1], ["mut", idx, api, b, sa], ["render", sa, 1, 1],
+                                               ["render", sb, 1, 1], ["mut", idx, api, b, sb], ["render", sb, 1, 0],
+                                               ["render", sa, 1, 0]]}
+
     def cases(self, rng, tier):
+        yield from self.listbox_scroll_cases(tier)
         yield from self.contents_edit_cases(tier)
         yield from self.zero_size_child_cases(tier)
         nbk = 2500 if tier == "quick" else 20000
@@ -1302,6 +1372,11 @@ class C06(core.Check):
             # rows() disagrees with its own fresh canvas (r[1] != r[2]) the difference is not the cache's doing (C11)
             if r and r[0] != r[1] and r[1] == r[2]:
                 msgs.append(f"rows() answered with cached canvases = {r[0]}, computed afresh = {r[1]} (last change: {last})")
+                break
+            # r[3] = rows() asked before this key was rendered: only canvases of other keys (other focus, other size) exist
+            if r and len(r) > 3 and r[3] is not None and r[3] != r[1] and r[1] == r[2]:
+                msgs.append(f"rows() asked before the render at this size and focus = {r[3]}, computed afresh = {r[1]} "
+                            f"(last change: {last})")
                 break
         return msgs
 
@@ -1410,7 +1485,7 @@ class C06(core.Check):
         subs = [(i, x) for i, x in enumerate(t) if isinstance(x, list) and x and isinstance(x[0], str)]
         lists = [(i, x) for i, x in enumerate(t) if isinstance(x, list) and (not x or isinstance(x[0], list))]
         flow_kinds = {"text", "edit", "intedit", "checkbox", "radio", "button", "divider", "progress", "pile", "columns", "gridflow",
-                      "padding", "attrmap", "linebox", "boxadapter", "wrap", "placeholder"}
+                      "padding", "attrmap", "linebox", "boxadapter", "wrap", "placeholder", "longtext"}
         if kind in flow_kinds:
             # hoist a flow child
             for _, x in subs:
